@@ -187,6 +187,24 @@ fn cq_upipe(router: &Router<Rule>, example: &Example, unit_trace: &Value) -> Opt
         cq_list(&strs(&unit_trace["unit_ids_seen"]), |x| cq_str(x)), cq_list(&values, |(k, v)| format!("({}, {})", cq_str(k), cq_str(v)))))
 }
 
+/// one example of the unit-ids analysis with the rules the router matched for it, as a Coq `uunit19` term
+fn cq_uunit(router: &Router<Rule>, example: &Example, out: &Value) -> Option<String> {
+    let request = Request::from_example(&router.config, example).ok()?;
+    let routes = router.match_request(&request);
+    let mut html_dropped = false;
+    let mut names: BTreeSet<String> = BTreeSet::new();
+    names.insert("Location".to_string());
+    let rules: Vec<String> = routes.iter().map(|r| crate::c05::cq_urule_api(&serde_json::to_value(r.handler()).unwrap(), &mut html_dropped, &mut names)).collect();
+    if html_dropped { return None; }
+    let lower: Vec<(String, String)> = names.iter().map(|n| (n.clone(), n.to_lowercase())).filter(|(a, b)| a != b).collect();
+    let skipped = request.path_and_query_skipped.skipped_query_params.clone();
+    let ids: Vec<String> = out.as_array()?.iter().map(|x| x.as_str().unwrap_or("").to_string()).collect();
+    Some(format!("{{| uu_rules := {}; uu_skipped := {}; uu_code := {}; uu_lower := {}; uu_out := {} |}}",
+        cq_list(&rules, |x| x.clone()), match &skipped { None => "None".to_string(), Some(x) => format!("(Some {})", cq_str(x)) },
+        match example.response_status_code { None => "None".to_string(), Some(c) => format!("(Some {})", c) },
+        cq_list(&lower, |(a, b)| format!("({}, {})", cq_str(a), cq_str(b))), cq_list(&ids, |x| cq_str(x))))
+}
+
 /// one hop of the redirect chain, computed independently of RedirectionLoop: the live pipeline for (url, method), the
 /// Location joined to the current url, the 301/302 method rewrite, and whether the target leaves the project's domains
 fn one_hop(router: &Router<Rule>, example: &Example, url: &str, method: &str, domains: &[String]) -> Option<(String, String, u64, bool)> {
@@ -264,6 +282,21 @@ pub fn run_case(id: usize, input: &Value) {
         let reported = ep.as_ref().map(|o| json!({"status_code": o["response"]["status_code"], "headers": o["response"]["headers"], "body": o["response"]["body"], "log": o["should_log_request"]}));
         if let Some(o) = ea.as_ref() { if let Some(p) = cq_pipe(&fresh, &example, &o["backend_status_code"], &o["response"], &o["should_log_request"]) { pipes.push(p); } }
         if let Some(o) = ea.as_ref() { if let Some(p) = cq_upipe(&fresh, &example, &o["unit_trace"]) { upipes.push(p); } }
+        // the unit-ids analysis: what it stores on every example of every rule, against the model on the matched rules
+        let mut uunits: Vec<String> = Vec::new();
+        {
+            let uj = serde_json::to_value(&u_alone).unwrap();
+            if let Some(rs) = uj["rules"].as_object() {
+                for (_, v) in rs {
+                    for e in v["examples"].as_array().map(|a| a.as_slice()).unwrap_or(&[]) {
+                        if e["unit_ids_applied"].is_null() { continue; }
+                        if let Ok(ex) = serde_json::from_value::<Example>(e.clone()) {
+                            if uunits.len() < 6 { if let Some(p) = cq_uunit(&fresh, &ex, &e["unit_ids_applied"]) { uunits.push(p); } }
+                        }
+                    }
+                }
+            }
+        }
         // 6. the redirect chain: one-hop table from the implementation itself (max_hops = 1), the chain for max_hops
         let fresh = Arc::new(fresh);
         let mut nodes: Vec<(String, String)> = Vec::new();
@@ -287,9 +320,9 @@ pub fn run_case(id: usize, input: &Value) {
             k += 1;
         }
         let chain = ep.as_ref().map(|o| o["redirection_loop"].clone()).unwrap_or(Value::Null);
-        (tests_same, units_same, explain_same, impact_same, live, reported, nodes, table, chain, json!({"tests": [proj_tests(&tp), proj_tests(&ta)], "many_failures": many}), pipes, upipes)
+        (tests_same, units_same, explain_same, impact_same, live, reported, nodes, table, chain, json!({"tests": [proj_tests(&tp), proj_tests(&ta)], "many_failures": many}), pipes, upipes, uunits)
     });
-    let (tests_same, units_same, explain_same, impact_same, live, reported, nodes, table, chain, extra, pipes, upipes) = match res {
+    let (tests_same, units_same, explain_same, impact_same, live, reported, nodes, table, chain, extra, pipes, upipes, uunits) = match res {
         Ok(x) => x,
         Err(e) => { emit(id, "", input.clone(), &["panic".to_string()], false, json!({"panic": e})); return; }
     };
@@ -302,8 +335,8 @@ pub fn run_case(id: usize, input: &Value) {
     }
     let err_code = match chain["error"].as_str() { None => 0, Some("AtLeastOneHop") => 1, Some("TooManyHops") => 2, Some("Loop") => 3, _ => 9 };
     let has_chain = !chain.is_null() && chain_ok && table.len() == nodes.len();
-    let coq = format!("{{| k_tests_same := {}; k_units_same := {}; k_explain_same := {}; k_impact_same := {}; k_pipeline_same := {}; k_pipes := {}; k_upipes := {}; k_has_chain := {}; k_max := {}; k_table := {}; o_hops := {}; o_err := {} |}}",
-        cq_bool(tests_same), cq_bool(units_same), cq_bool(explain_same), cq_bool(impact_same), cq_bool(pipeline_same), cq_list(&pipes, |x| x.clone()), cq_list(&upipes, |x| x.clone()), cq_bool(has_chain), input["max_hops"].as_u64().unwrap(),
+    let coq = format!("{{| k_tests_same := {}; k_units_same := {}; k_explain_same := {}; k_impact_same := {}; k_pipeline_same := {}; k_pipes := {}; k_upipes := {}; k_uunits := {}; k_has_chain := {}; k_max := {}; k_table := {}; o_hops := {}; o_err := {} |}}",
+        cq_bool(tests_same), cq_bool(units_same), cq_bool(explain_same), cq_bool(impact_same), cq_bool(pipeline_same), cq_list(&pipes, |x| x.clone()), cq_list(&upipes, |x| x.clone()), cq_list(&uunits, |x| x.clone()), cq_bool(has_chain), input["max_hops"].as_u64().unwrap(),
         cq_list(&table, |(n, st, ext, sl)| format!("({}, {}, {}, {})", n, match st { None => "None".to_string(), Some((i, c)) => format!("(Some ({}, {}))", i, c) }, cq_bool(*ext), cq_bool(*sl))),
         cq_list(&hops, |(i, c)| format!("({}, {})", i, c)), err_code);
     let mut tags: Vec<String> = vec![format!("max_hops:{}", input["max_hops"]), format!("hops:{}", hops.len().min(8)), format!("err:{}", err_code)];
@@ -317,6 +350,7 @@ pub fn run_case(id: usize, input: &Value) {
     tags.push(format!("impact:{}", input["impact"]["action"].as_str().unwrap()));
     tags.push(format!("pipes:{}", pipes.len().min(4)));
     tags.push(format!("unit-traces:{}", upipes.len().min(4)));
+    tags.push(format!("unit-ids:{}", uunits.len().min(6)));
     let nontrivial = hops.len() >= 2 || live.as_ref().map(|l| l["status_code"] != json!(200) && l["status_code"] != json!(0)).unwrap_or(false);
     emit(id, &coq, input.clone(), &tags, nontrivial, json!({"live": live, "reported": reported, "chain": chain, "more": extra}));
 }
